@@ -4,6 +4,7 @@
 package termincommittee
 
 import (
+	"github.com/orbs-network/lean-helix-go/services/blockheight"
 	"github.com/orbs-network/lean-helix-go/services/interfaces"
 	"github.com/orbs-network/lean-helix-go/spec/types/go/primitives"
 )
@@ -28,4 +29,9 @@ func (tic *TermInCommittee) VerifCommitted() bool {
 // VerifLatestViewProcessed reports latestViewThatProcessedVCMOrNVM.
 func (tic *TermInCommittee) VerifLatestViewProcessed() primitives.View {
 	return tic.latestViewThatProcessedVCMOrNVM
+}
+
+// VerifTermHeight reports the height this term decides (the height after its previous block).
+func (tic *TermInCommittee) VerifTermHeight() primitives.BlockHeight {
+	return blockheight.GetBlockHeight(tic.prevBlock) + 1
 }
